@@ -28,6 +28,8 @@ pub fn profile_universe() -> Profile {
     p.doc_merge_safe = true;
     p.recursion = 5;
     p.enums = 35;
+    p.prefix_names = 25;
+    p.twin_names = 25;
     p
 }
 
